@@ -79,7 +79,8 @@ func (fc *funcCtx) ghostOnSend(st *State, name string, x *ssa.Send) {
 }
 
 // returnGhostChecks: protocol obligations at function exit named by the contract notes:
-//   note closes <chan>      -> the channel parameter is closed on every return path
+//
+//	note closes <chan>      -> the channel parameter is closed on every return path
 func (fc *funcCtx) returnGhostChecks(st *State) {
 	for _, n := range fc.con.Notes {
 		var ch string
